@@ -45,7 +45,7 @@ impl<KT: DbMapKeyType> KeyFile<KT> {
         let mut file = match params.key_buf_size {
             FileBufSizeParam::Size(val) => {
                 let dat_buf_chunk_size = CHUNK_SIZE;
-                let dat_buf_num_chunks = val / dat_buf_chunk_size;
+                let dat_buf_num_chunks = (val / dat_buf_chunk_size).max(2);
                 VarFile::with_capacity(
                     piece_mgr,
                     "key",
